@@ -1810,7 +1810,7 @@ lyd_lyb_data_length(const char *data)
         ret = lyb_read_stop_siblings(lybctx);
         LY_CHECK_GOTO(ret, cleanup);
     } else {
-        lyb_read(NULL, LYB_SIZE_BYTES, lybctx);
+        lyb_read(NULL, LYB_META_BYTES, lybctx);
     }
 
     /* read the last zero, parsing finished */
